@@ -529,9 +529,12 @@ func (d *driver) check() int {
 	}
 	stMismatch := 0
 	for b, n := range stMis {
-		if strings.HasPrefix(b, "instr") {
+		if b == "instr" {
 			// every goroutine of the instrumented build is under the kernel's
-			// control: a divergence there is a simulator defect
+			// control: a divergence there is a simulator defect. (Its race-detector
+			// variant is not held to that: the race runtime makes sync.Pool drop a
+			// random quarter of what is put into it, which a changed tree may turn
+			// into visible behaviour.)
 			return d.fatal("simulator nondeterminism: %d self-test runs diverged on the %s build", n, b)
 		}
 		// The unmodified tree lets a newborn goroutine run beside its parent
@@ -539,7 +542,7 @@ func (d *driver) check() int {
 		// conflicting accesses and runs are deterministic; a changed tree can
 		// put a real race there. That is not simulator trouble: carry on, and
 		// require findings of these builds to reproduce before reporting.
-		fmt.Printf("[%s] note: %d self-test runs diverged on the %s build (uncontrolled goroutine-birth window in the unmodified tree)\n", d.prop, n, b)
+		fmt.Printf("[%s] note: %d self-test runs diverged on the %s build (uncontrolled goroutine-birth window in the unmodified tree, or sync.Pool under the race runtime)\n", d.prop, n, b)
 		d.flaky = true
 		stMismatch += n
 	}
@@ -708,7 +711,7 @@ func (d *driver) check() int {
 		d.noShrink = gi >= 4 // minimise the first few classes only
 		// prefer findings of the fully controlled builds
 		sort.SliceStable(g, func(i, j int) bool {
-			return strings.HasPrefix(g[i].build, "instr") && !strings.HasPrefix(g[j].build, "instr")
+			return g[i].build == "instr" && g[j].build != "instr"
 		})
 		reported := false
 		soft := true // every candidate came from a source that may legitimately not replay
@@ -721,7 +724,7 @@ func (d *driver) check() int {
 				return d.fatal("%v", herr)
 			}
 			if !confirmed {
-				if !strings.HasPrefix(v.build, "pristine") && v.res.Oracle != "S8" {
+				if v.build == "instr" && v.res.Oracle != "S8" {
 					soft = false
 				}
 				continue
@@ -1064,7 +1067,7 @@ func (d *driver) report(v violation) (path string, confirmed bool, err error) {
 	if !same(r, crash) {
 		return "", false, nil
 	}
-	if strings.HasPrefix(v.build, "pristine") {
+	if v.build != "instr" {
 		// must reproduce every time, not just once
 		for i := 0; i < 3; i++ {
 			r2, c2, e := d.runScenario(v.build, raw, true)
